@@ -10,7 +10,7 @@ import lib
 PID = "C07"
 THEOREMS = ["Properties_C07.v"]
 # checks whose harnesses are re-run under the sanitizers (each rebuilds its harness through lib.build_cpp)
-SUBCHECKS = ["C01", "C05", "C10", "C12", "C13", "C14", "C15", "C16", "C17", "C18", "C03", "C09"]
+SUBCHECKS = ["C01", "C05", "C10", "C12", "C13", "C14", "C15", "C16", "C17", "C18", "C03", "C09", "C20"]
 
 
 def run_sub(pid, tier, seed, build, sanlog):
